@@ -18,6 +18,8 @@ def cfg : Cfg :=
     cbCheck := Gen.C15.cbCheck
     popenRcFirst := Gen.C15.popenRcFirst
     popenStoresRc := Gen.C15.popenStoresRc
-    popenValidateFirst := Gen.C15.popenValidateFirst }
+    popenValidateFirst := Gen.C15.popenValidateFirst
+    loopsOverAlive := Gen.C15.loopsOverAlive
+    aliveIsSet := Gen.C15.aliveIsSet }
 
 end Psutil.C15
